@@ -47,7 +47,7 @@ def to_via(case):
     if not m or c.get("nomodel"):
         return case
     for op in c["ops"]:
-        if op["t"] not in ("open", "send", "hangup", "m2s_direct", "link_down"):
+        if op["t"] not in ("open", "send", "hangup", "m2s_direct", "link_down"):  # (stall / read_some / timing ops: direct mode only)
             return case
         if any(isinstance(x, dict) and "park" in x for x in (op.get("script") or [])):
             return case
@@ -833,9 +833,16 @@ def stalled_resume_histories(r, thorough):
         for _ in range(r.randint(4, 8)):
             pl = bytes(r.randrange(256) for _ in range(r.choice([600, 1000])))
             g.send(ks["bob"], frame("BROADCAST", [("id", g.rid()), ("channel", "!c1@localhost"), ("length", len(pl)), ("qos", 1)], pl), [])
+        # the stalled reader takes a little off its socket: the suspended write completes and the writer starts the next
+        # batch (all the frames queued meanwhile), which is suspended again in its middle
+        g.ops.append({"t": "read_some", "k": ks["alice"], "n": r.choice([700, 1500, 2500])})
         for _ in range(2):
             burst = b"".join(frame("BROADCAST", [("id", g.rid()), ("channel", "!c2@localhost"), ("length", 3)], b"abc") for _ in range(110))
             g.ops.append({"t": "send", "k": ks["carol"], "bytes": burst.hex(), "script": []})
+        if r.random() < 0.5:
+            g.ops.append({"t": "read_some", "k": ks["alice"], "n": r.choice([300, 900])})
+            burst = b"".join(frame("BROADCAST", [("id", g.rid()), ("channel", "!c2@localhost"), ("length", 3)], b"abc") for _ in range(110))
+            g.ops.append({"t": "send", "k": ks["dave"], "bytes": burst.hex(), "script": []})
         g.ops.append({"t": "stall", "k": ks["alice"], "on": False})
         g.ops.append({"t": "send", "k": ks["alice"], "bytes": frame("CHANNELS", [("id", g.rid())]).hex(), "script": [], "settle_ms": 200})
         cases.append({"cfg": cfg, "ops": g.ops, "nomodel": True, "stalled_resume": ks["alice"]})
